@@ -216,16 +216,21 @@ def run_isometry(ctx, V, fam, n, m):
 
 
 def evaluate(ctx, deep):
-    nmax = 5 if deep else 4
+    nmax = 5
+    small = ["haar", "identity_columns", "permutation_columns", "hadamard_columns", "real_orthogonal",
+             "diagonal_phases", "zero_pivot", "reflection_columns", "last_identity_columns", "qft_columns"]
     for n in range(1, nmax + 1):
         for m in range(0, n + 1):
             if deep:
-                reps = {1: 3, 2: 4, 3: 3, 4: 2, 5: 1}[n]
+                reps = {1: 3, 2: 5, 3: 4, 4: 3, 5: 1}[n]
             else:
-                reps = {1: 2, 2: 2, 3: 2, 4: 1}[n]
-            if n == 5 and m >= 4:
-                fams = ["haar", "identity_columns", "permutation_columns", "hadamard_columns", "real_orthogonal",
-                        "diagonal_phases", "zero_pivot", "reflection_columns"]
+                reps = {1: 2, 2: 3, 3: 3, 4: 1, 5: 1}[n]
+            if n == 5 and not deep:
+                if m not in (0, 2, 5):
+                    continue
+                fams = small[:5]
+            elif n == 5 and m >= 4:
+                fams = small
             else:
                 fams = FAMILIES
             for fam in fams:
